@@ -408,6 +408,14 @@ class Run:
                                 {'stream': stream, 'line': ln, 'impl': a, 'spec': s})
         return impl_out
 
+    def corpus(self, impl, spec=None, **kw):
+        """minimised past failures (corpus/<id>.txt, one protocol line each, `#` comments) always run first"""
+        path = os.path.join(CORPUS_DIR, f'{self.pid}.txt')
+        if not os.path.exists(path):
+            return []
+        lines = [ln.strip() for ln in open(path) if ln.strip() and not ln.startswith('#')]
+        return self.run_cases('corpus', lines, impl, spec, **kw)
+
     def report(self, key, what, replay):
         """A concrete failing input of the property on the real code."""
         if key in self.known:
